@@ -1014,6 +1014,68 @@ func streamCancel(c *Ctx) {
 					}
 				}
 			}
+			// K26 (F44, round 12): the same stall on a bidi call with a Receive pending: the handler
+			// has sent one message and then neither reads nor writes until its context ends; the
+			// client fills the window with Sends, a second Receive waits; the context ends: the
+			// blocked Send returns (an error wrapping io.EOF is allowed) and the pending Receive
+			// reports the context's code.
+			if h2 {
+				scs = append(scs, scenario{"cancel-stalled-flow-control", "bidi call out of flow-control window with a Receive pending; the context is cancelled, " + tag, func() (string, bool) {
+					release := make(chan struct{})
+					h := connect.NewBidiStreamHandler("/s/m", func(ctx context.Context, s *connect.BidiStream[[]byte, []byte]) error {
+						if err := s.Send(&[]byte{1}); err != nil {
+							return err
+						}
+						select {
+						case <-ctx.Done():
+						case <-release:
+						}
+						return nil
+					}, connect.WithCodec(rawCodec{"raw"}))
+					srv := startServer(h, true)
+					defer srv.Close()
+					defer srv.CloseClientConnections()
+					defer close(release)
+					cl := connect.NewClient[[]byte, []byte](srv.Client(), srv.URL+"/s/m", protoOpts(proto)...)
+					ctx, cancel := context.WithCancel(context.Background())
+					defer cancel()
+					st := cl.CallBidiStream(ctx)
+					if err := st.Send(&[]byte{1}); err != nil {
+						return "first Send: " + codeName(err), false
+					}
+					if _, err := st.Receive(); err != nil {
+						return "first Receive: " + codeName(err), false
+					}
+					chunk := make([]byte, 256<<10)
+					sendDone := make(chan error, 1)
+					go func() {
+						var err error
+						for i := 0; i < 64 && err == nil; i++ { // 16 MiB: more than any window
+							err = st.Send(&chunk)
+						}
+						sendDone <- err
+					}()
+					recvDone := make(chan error, 1)
+					go func() { _, err := st.Receive(); recvDone <- err }()
+					time.Sleep(400 * time.Millisecond)
+					cancel()
+					var serr, rerr error
+					select {
+					case serr = <-sendDone:
+					case <-time.After(3 * time.Second):
+						return "the blocked Send has not returned 3 s after the context was cancelled", false
+					}
+					select {
+					case rerr = <-recvDone:
+					case <-time.After(3 * time.Second):
+						return "the pending Receive has not returned 3 s after the context was cancelled", false
+					}
+					_ = st.CloseRequest()
+					_ = st.CloseResponse()
+					okSend := serr != nil && (codeName(serr) == "canceled" || errors.Is(serr, io.EOF))
+					return fmt.Sprintf("send=%s receive=%s", codeName(serr), codeName(rerr)), okSend && codeName(rerr) == "canceled"
+				}})
+			}
 			// K24 (round 10, C15-mm): the server has finished the call with an error of its own and
 			// the rest of the response has arrived; the client cancels between two Receives: the
 			// Receive that fails afterwards reports canceled, not the outcome it never asked for.
